@@ -107,6 +107,19 @@ def run(res, tier, replay):
         c = _C(); c.members = mem; c.folders = [cabfmt.Folder(("mszip",), mem)]; c.files = {"x": cabb}; c.parts = ["x"]
         for combo in combos:
             scns.append(scn(c.files, c.parts, combo, 2)); meta.append(("valid", 2000 + i, combo, c, None))
+    # directed (own generator state): one wrong stored checksum in every method - a one-block LZX folder (the block is also the last: its
+    # length hint), a three-block LZX folder, a three-block Quantum folder (trailer byte per block), MSZIP, stored; first / middle / last block
+    for di, (meth, lens) in enumerate(((("lzx", 16), [187]), (("lzx", 17), [40000, 30000, 20000]), (("qtm", 16), [40000, 30000, 20000]), (("mszip",), [40000, 30000]), (("none",), [40000, 30000]))):
+        for which in (0, 1, -1):
+            r18 = random.Random(1800 + di)
+            if meth[0] in ("lzx", "qtm"): mem = [cabfmt.Member(b"k%d.bin" % j, length=ln) for j, ln in enumerate(lens)]
+            else: mem = cabfmt.random_members(r18, len(lens), lens=lens)
+            c = gen.CabCase(); fo = cabfmt.Folder(meth, mem); c.folders = [fo]; cab = cabfmt.build_single([fo], r18, with_ck=True); c.members = list(fo.members)
+            blocks = [b for b in _blocks(cab) if b[3] != 0]
+            if not blocks or (which == 1 and len(blocks) < 3): continue
+            q, cb, dres, ck = blocks[which]; bad = bytearray(cab); struct.pack_into("<I", bad, q, (ck ^ 0x8000) or 1)
+            for combo in combos:
+                scns.append(scn({"x": bytes(bad)}, ["x"], combo, len(c.members))); meta.append(("cksum", 200000 + 10 * di + which + 1, combo, c, None))
     trs = scenario.run_scenarios(exe, scns)
     nbad = 0
     def summary(t):
